@@ -12,7 +12,9 @@ EXTRACT = os.path.join(BIN, "extract")
 TRANSLATORS = [("gotolean", "Trans.lean", "Generated.Trans", "trans.json"),
                ("gotolean-cron", "TransCron.lean", "Generated.TransCron", "trans_cron.json"),
                # quartz/queue.go, job_key.go, matcher/*.go AND the toolchain's container/heap/heap.go
-               ("gotolean-queue", "TransQueue.lean", "Generated.TransQueue", "trans_queue.json")]
+               ("gotolean-queue", "TransQueue.lean", "Generated.TransQueue", "trans_queue.json"),
+               # quartz/scheduler.go: validateJob, fetchAndReschedule, the seven registry methods; quartz/trigger.go
+               ("gotolean-sched", "TransSched.lean", "Generated.TransSched", "trans_sched.json")]
 QMODEL = os.path.join(LEAN, ".lake", "build", "bin", "qmodel")
 GOENV = dict(os.environ, GOFLAGS="-mod=mod", GOPROXY="off", GOSUMDB="off", GOTOOLCHAIN="local",
              CGO_ENABLED=os.environ.get("CGO_ENABLED", "0"))
